@@ -1,6 +1,7 @@
 import PlzVerif.Base.Proto
 import PlzVerif.Model.Changes
 import PlzVerif.Model.QueryFacts
+import PlzVerif.Generated.C24
 open PlzVerif PlzVerif.Query PlzVerif.Changes PlzVerif.Proto
 
 def parsePath (s : String) : Path := if s = "." then [] else s.splitOn "/"
@@ -35,6 +36,26 @@ def pkgOfName (nm : String) : Option Path :=
   | [p, n] => if p = "" || n = "" then none else some (parsePath p)
   | _ => none
 
+/-- `go,py;manual` → [["go","py"],["manual"]] ; "-" = none -/
+def parseFilter (s : String) : Option (List (List String)) :=
+  if s = "-" then some [] else
+  let es := (s.splitOn ";").map (·.splitOn ",")
+  if es.any (·.any (· = "")) then none else some es
+
+/-- `0:manual|go;1:-` -/
+def parseLabels (s : String) : Option (List (Nat × List String)) :=
+  if s = "-" then some [] else
+  (s.splitOn ";").mapM fun e =>
+    match e.splitOn ":" with
+    | [k, v] => do
+      let k ← k.toNat?
+      if v = "" then none
+      else if v = "-" then pure (k, [])
+      else
+        let parts := v.splitOn "|"
+        if parts.any (· = "") then none else pure (k, parts)
+    | _ => none
+
 def parseLevel (s : String) : Option (Option Limit) :=
   if s = "u" then some (some none)
   else match s.toNat? with
@@ -48,28 +69,30 @@ def insertAt (pos : Nat → Nat) (x : Nat) : List Nat → List Nat
 
 def step (line : String) : String :=
   match line.splitOn " " with
-  | ["changes", lvl, files, changed0, names, pkgs, nodes, adj, inputs, tools] =>
-    match parseLevel lvl, parseNats changed0, parseNats nodes, parseAdj adj, parseInputs inputs, parseInputs tools with
-    | some level, some changed0, some nodes, some al, some ins, some tls =>
+  | ["changes", lvl, files, changed0, names, pkgs, nodes, adj, inputs, tools, labels, inc, exc] =>
+    match parseLevel lvl, parseNats changed0, parseNats nodes, parseAdj adj, parseInputs inputs, parseInputs tools,
+          parseLabels labels, parseFilter inc, parseFilter exc with
+    | some level, some changed0, some nodes, some al, some ins, some tls, some lbs, some inc, some exc =>
       let nms := if names = "-" then [] else names.splitOn ","
       match nms.mapM pkgOfName with
       | none => "bad-op"
       | some pkgOf =>
         let n := nms.length
-        if nodes.length == n && (List.range n).all (fun i => nodes.count i == 1 && (al.map (·.1)).count i == 1 && (ins.map (·.1)).count i == 1 && (tls.map (·.1)).count i == 1) &&
-           al.length == n && ins.length == n && tls.length == n && al.all (fun e => e.2.all (· < n)) && changed0.all (· < n) then
+        if nodes.length == n && (List.range n).all (fun i => nodes.count i == 1 && (al.map (·.1)).count i == 1 && (ins.map (·.1)).count i == 1 && (tls.map (·.1)).count i == 1 && (lbs.map (·.1)).count i == 1) &&
+           al.length == n && ins.length == n && tls.length == n && lbs.length == n && al.all (fun e => e.2.all (· < n)) && changed0.all (· < n) then
           let G : Graph := { nodes := nodes, adj := fun t => match al.lookup t with | some ds => ds | none => [],
                              pl := fun t => t, hid := fun _ => false }
           let C : CGraph := { G := G, pkgs := if pkgs = "-" then [] else (pkgs.splitOn ",").map parsePath,
                               pkgOf := fun t => match pkgOf[t]? with | some p => p | none => [],
                               inputs := fun t => match ins.lookup t with | some l => l | none => [],
-                              tools := fun t => match tls.lookup t with | some l => l | none => [] }
+                              tools := fun t => match tls.lookup t with | some l => l | none => [],
+                              incl := fun t => shouldInclude (match lbs.lookup t with | some l => l | none => []) inc exc }
           let fs := if files = "-" then [] else (files.splitOn ",").map parsePath
-          let out := changedTargets genCfg C fs changed0 level
+          let out := changedTargets genCfg PlzVerif.Generated.C24.seedsFiltered C fs changed0 level
           let pos := fun x => nodes.idxOf x
           showNats (out.foldr (insertAt pos) [])
         else "bad-op"
-    | _, _, _, _, _, _ => "bad-op"
+    | _, _, _, _, _, _, _, _, _ => "bad-op"
   | _ => "bad-op"
 
 def main : IO Unit := runStateless step
